@@ -932,3 +932,151 @@ pub fn selftest() -> Result<usize, String> {
     }
     Ok(n)
 }
+
+// ---------------------------------------------------------------------------------------------
+// byte-level walker used for known-finding attribution (C07)
+
+/// Copy one well-formed item from `b[*p..]` to `out` verbatim, except that every tag 2/3 whose
+/// content is an *indefinite-length* byte string gets that string rewritten as one definite string.
+/// Byte strings whose content is itself one CBOR item (protected headers) are rewritten inside.
+/// Returns None if the input is not well-formed.  `changed` reports whether anything was rewritten.
+pub fn neutralise_bignum_indefinite(b: &[u8]) -> Option<(Vec<u8>, bool)> {
+    fn head(b: &[u8], p: &mut usize) -> Option<(u8, u8, Option<u64>, usize)> {
+        let start = *p;
+        let ib = *b.get(*p)?;
+        *p += 1;
+        let ai = ib & 0x1f;
+        let arg = match ai {
+            0..=23 => Some(ai as u64),
+            24 => {
+                let v = *b.get(*p)? as u64;
+                *p += 1;
+                Some(v)
+            }
+            25 => {
+                let s = b.get(*p..*p + 2)?;
+                *p += 2;
+                Some(u16::from_be_bytes([s[0], s[1]]) as u64)
+            }
+            26 => {
+                let s = b.get(*p..*p + 4)?;
+                *p += 4;
+                Some(u32::from_be_bytes([s[0], s[1], s[2], s[3]]) as u64)
+            }
+            27 => {
+                let s = b.get(*p..*p + 8)?;
+                *p += 8;
+                let mut a = [0u8; 8];
+                a.copy_from_slice(s);
+                Some(u64::from_be_bytes(a))
+            }
+            31 => None,
+            _ => return None,
+        };
+        Some((ib >> 5, ai, arg, start))
+    }
+    fn item(b: &[u8], p: &mut usize, out: &mut Vec<u8>, changed: &mut bool, under_bignum: bool, depth: u32) -> Option<()> {
+        if depth > 600 {
+            return None;
+        }
+        let (major, _ai, arg, start) = head(b, p)?;
+        match major {
+            0 | 1 | 7 => {
+                if major == 7 && arg.is_none() {
+                    return None;
+                }
+                out.extend_from_slice(&b[start..*p]);
+                Some(())
+            }
+            2 | 3 => match arg {
+                Some(n) => {
+                    let end = p.checked_add(usize::try_from(n).ok()?)?;
+                    if end > b.len() {
+                        return None;
+                    }
+                    let content = &b[*p..end];
+                    *p = end;
+                    if major == 2 && !content.is_empty() {
+                        // a nested item (protected header)?
+                        let mut q = 0usize;
+                        let mut inner = Vec::new();
+                        let mut ch = false;
+                        if item(content, &mut q, &mut inner, &mut ch, false, depth + 1).is_some() && q == content.len() && ch {
+                            *changed = true;
+                            put_head(out, 2, inner.len() as u64, &mut Style::canonical());
+                            out.extend_from_slice(&inner);
+                            return Some(());
+                        }
+                    }
+                    out.extend_from_slice(&b[start..end]);
+                    Some(())
+                }
+                None => {
+                    let mut buf = Vec::new();
+                    loop {
+                        if *b.get(*p)? == 0xff {
+                            *p += 1;
+                            break;
+                        }
+                        let (m2, _, a2, _) = head(b, p)?;
+                        if m2 != major {
+                            return None;
+                        }
+                        let n = usize::try_from(a2?).ok()?;
+                        let end = p.checked_add(n)?;
+                        buf.extend_from_slice(b.get(*p..end)?);
+                        *p = end;
+                    }
+                    if under_bignum && major == 2 {
+                        *changed = true;
+                        put_head(out, 2, buf.len() as u64, &mut Style::canonical());
+                        out.extend_from_slice(&buf);
+                    } else {
+                        out.extend_from_slice(&b[start..*p]);
+                    }
+                    Some(())
+                }
+            },
+            4 | 5 => {
+                out.extend_from_slice(&b[start..*p]);
+                let mult = if major == 5 { 2 } else { 1 };
+                match arg {
+                    Some(n) => {
+                        for _ in 0..n.checked_mul(mult)? {
+                            item(b, p, out, changed, false, depth + 1)?;
+                        }
+                    }
+                    None => {
+                        let mut k = 0u64;
+                        loop {
+                            if *b.get(*p)? == 0xff {
+                                if k % mult != 0 {
+                                    return None;
+                                }
+                                out.push(0xff);
+                                *p += 1;
+                                break;
+                            }
+                            item(b, p, out, changed, false, depth + 1)?;
+                            k += 1;
+                        }
+                    }
+                }
+                Some(())
+            }
+            _ => {
+                let t = arg?;
+                out.extend_from_slice(&b[start..*p]);
+                item(b, p, out, changed, t == 2 || t == 3, depth + 1)
+            }
+        }
+    }
+    let mut p = 0;
+    let mut out = Vec::new();
+    let mut changed = false;
+    item(b, &mut p, &mut out, &mut changed, false, 0)?;
+    if p != b.len() {
+        return None;
+    }
+    Some((out, changed))
+}
